@@ -218,3 +218,126 @@ Example ch0_drain_source_example :
   gen_Inner_handle_channel0_readable toy_ext_st 5 (VC "mail" [VN 1; VN 2]) (VC "slot" [])
   = (VC "mail" [], VC "Ok" [VC "()" []]).
 Proof. vm_compute. reflexivity. Qed.
+
+(* ================= handle_channel_readable: the same loop with the high-water test and the slot
+   lookup in front of the receive ================= *)
+Definition dec_slot_rcv (ext_st : string -> list val -> val -> val * val) (s1 v : val) : val * dstep val val :=
+  match v with
+  | VC c args =>
+      if c =? "Some" then
+        match args with
+        | [slot] => let '(s2, v2) := ext_st "slot.rx.try_recv" [slot] s1 in (s2, dec_rcv v2)
+        | _ => (s1, SRet VStuck)
+        end
+      else if c =? "None" then
+        match args with [] => (s1, SRet (VC "Ok" [VC "()" []])) | _ => (s1, SRet VStuck) end
+      else (s1, SRet VStuck)
+  | _ => (s1, SRet VStuck)
+  end.
+
+Section V2.
+Variable ext_st : string -> list val -> val -> val * val.
+Variable id high : val.
+Definition rcv_v2 (s : val) : val * dstep val val :=
+  if v_ltb high (v_len (v_field "outbuf" s)) then
+    (v_set "channels_need_repoll" (VC "true" []) s, SRet (VC "Ok" [VC "()" []]))
+  else
+    let '(s1, v) := ext_st "chan_slots.get" [id] s in dec_slot_rcv ext_st s1 v.
+Definition proc_v2 (m s : val) : val * option val :=
+  let '(s2, v) := ext_st "self.process_channel_message" [id; m] s in (s2, dec_proc v).
+Hypothesis proc_typed2 : forall m s,
+  (exists u, snd (ext_st "self.process_channel_message" [id; m] s) = VC "Ok" [u]) \/
+  (exists e, snd (ext_st "self.process_channel_message" [id; m] s) = VC "Err" [e]).
+
+Theorem chan_drain_source_is_drain fuel : forall self,
+  gen_Inner_handle_channel_readable ext_st fuel self id high = drain rcv_v2 proc_v2 VStuck fuel self.
+Proof.
+  unfold gen_Inner_handle_channel_readable.
+  induction fuel as [|f IH]; intros self; [reflexivity|].
+  cbn [gen_Inner_handle_channel_readable_loop1 drain]. unfold rcv_v2.
+  destruct (v_ltb high (v_len (v_field "outbuf" self))); [reflexivity|].
+  destruct (ext_st "chan_slots.get" [id] self) as [s1 v].
+  unfold dec_slot_rcv, dec_rcv.
+  repeat (first [ reflexivity
+    | match goal with
+      | |- context [match ?x with _ => _ end] => is_var x; destruct x
+      | |- context [ext_st "slot.rx.try_recv" ?a ?s] => destruct (ext_st "slot.rx.try_recv" a s) as [? ?]
+      | |- context [if ?b then _ else _] => destruct b eqn:?
+      end ]).
+  all: try (exfalso; repeat match goal with H : (_ =? _) = true |- _ => apply String.eqb_eq in H end;
+            congruence).
+  all: unfold proc_v2;
+    match goal with
+    | |- context [ext_st "self.process_channel_message" ?a ?s] =>
+        let H := fresh "H" in
+        match a with [_; ?m] => pose proof (proc_typed2 m s) as H end;
+        destruct (ext_st "self.process_channel_message" a s) as [s2 v2];
+        cbn [snd] in H; destruct H as [[u ->]|[e ->]]; cbn; [apply IH | reflexivity]
+    end.
+Qed.
+End V2.
+
+Definition rcv_core2 (n : N) (c : core) : core * dstep msg outcome :=
+  if (c_high c <? out_len c)%N then (set_need c true, SRet OOk) else
+  match alookup n (c_slots c) with
+  | None => (c, SRet OOk)
+  | Some s =>
+      match s_mail s with
+      | [] => (c, SRet (if s_mail_tx s then OOk else OErr EClientDropped))
+      | m :: rest => (set_slot c n (with_mail s rest), SGot m)
+      end
+  end.
+Definition proc_core2 (n : N) (m : msg) (c : core) : core * option outcome :=
+  match channel_message n m c with
+  | (OOk, c') => (c', None)
+  | (o, c') => (c', Some o)
+  end.
+
+Theorem chan_readable_is_drain n fuel : forall c,
+  chan_readable fuel n c = (let '(c', o) := drain (rcv_core2 n) (proc_core2 n) OOk fuel c in (o, c')).
+Proof.
+  induction fuel as [|f IH]; intros c; [reflexivity|].
+  cbn [chan_readable drain]. unfold rcv_core2.
+  destruct (c_high c <? out_len c)%N; [reflexivity|].
+  destruct (alookup n (c_slots c)) as [s|]; [|reflexivity].
+  destruct (s_mail s) as [|m rest]; [destruct (s_mail_tx s); reflexivity|].
+  unfold proc_core2.
+  destruct (channel_message n m (set_slot c n (with_mail s rest))) as [o c'].
+  destruct o; try reflexivity. apply IH.
+Qed.
+
+Section Together2.
+Variable ext_st : string -> list val -> val -> val * val.
+Variable n : N.
+Variable id high : val.
+Variable RS : core -> val -> Prop.
+Variable RM : msg -> val -> Prop.
+Variable RR : outcome -> val -> Prop.
+Hypothesis proc_typed2 : forall m s,
+  (exists u, snd (ext_st "self.process_channel_message" [id; m] s) = VC "Ok" [u]) \/
+  (exists e, snd (ext_st "self.process_channel_message" [id; m] s) = VC "Err" [e]).
+Hypothesis rcv_sim : forall c s, RS c s ->
+  RS (fst (rcv_core2 n c)) (fst (rcv_v2 ext_st id high s)) /\
+  step_rel RM RR (snd (rcv_core2 n c)) (snd (rcv_v2 ext_st id high s)).
+Hypothesis proc_sim : forall m mv c s, RM m mv -> RS c s ->
+  RS (fst (proc_core2 n m c)) (fst (proc_v2 ext_st id mv s)) /\
+  opt_rel RR (snd (proc_core2 n m c)) (snd (proc_v2 ext_st id mv s)).
+Hypothesis fuel_rel : RR OOk VStuck.
+
+Theorem chan_readable_source_is_model fuel c self :
+  RS c self ->
+  RS (snd (chan_readable fuel n c)) (fst (gen_Inner_handle_channel_readable ext_st fuel self id high)) /\
+  RR (fst (chan_readable fuel n c)) (snd (gen_Inner_handle_channel_readable ext_st fuel self id high)).
+Proof.
+  intros H. rewrite chan_readable_is_drain. rewrite chan_drain_source_is_drain by exact proc_typed2.
+  pose proof (drain_sim rcv_sim proc_sim fuel_rel fuel H) as [A B].
+  destruct (drain (rcv_core2 n) (proc_core2 n) OOk fuel c) as [c' o]. cbn [fst snd] in *. split; assumption.
+Qed.
+End Together2.
+
+(* non-vacuity: the out-buffer above the high-water mark: nothing is taken, a re-poll is owed *)
+Example chan_drain_source_example :
+  gen_Inner_handle_channel_readable toy_ext_st 5
+    (VR [("outbuf", VBytes [1; 2; 3]%N); ("channels_need_repoll", VC "false" [])]) (VN 1) (VN 2)
+  = (VR [("outbuf", VBytes [1; 2; 3]%N); ("channels_need_repoll", VC "true" [])], VC "Ok" [VC "()" []]).
+Proof. vm_compute. reflexivity. Qed.
